@@ -146,6 +146,17 @@ def decorate(rng, it):
         # marker is an attribute macro that removes itself), so only a later position reaches `derive_where`
         first = min(i for i, a in enumerate(it.attrs) if a.kind == 'dw')
         it.attrs.insert(rng.randrange(first + 1, len(it.attrs) + 1), Attr('bare', path=P('dw::derive_where_visited')))
+    elif r < 0.22:
+        # a later attribute written with a qualified path: rustc invokes the attribute macro a second time, which finds
+        # the marker of the first visit behind the item's attributes (the documented "already applied" error).  The
+        # second invocation is outside the Lean model (one `RawItem` = one invocation); the expectation is the
+        # documented behaviour.
+        dws = [i for i, a in enumerate(it.attrs) if a.kind == 'dw']
+        later = [i for i in dws[1:] if it.attrs[i].body.notlist is None and 'crate =' not in it.attrs[i].body.rust_inner()]
+        if later:
+            i = rng.choice(later)
+            it.attrs[i] = Attr('dwq', body=it.attrs[i].body, path=P('dw::derive_where'))
+            it.expect_visited = True
     return normalize_first(it)
 
 
@@ -300,8 +311,10 @@ def predict(cfg, named):
     s1 = subprocess.run([runner.DRIVER], input=data, stdout=subprocess.PIPE, text=True).stdout.split('\n')
     s2 = runner.run_model('expand', cfg, [it.sexp() for it in mv])
     out = []
-    for a, b in zip(s1, s2):
-        if a.startswith('err '):
+    for (_, item), a, b in zip(named, s1, s2):
+        if getattr(item, 'expect_visited', False) and a.startswith('ok'):
+            out.append(('err', '`#[derive_where(..)` was already applied to this item before*', 1))
+        elif a.startswith('err '):
             out.append(('err', a[4:].split(' @@ ')[0], 1))
         elif b.startswith('err '):
             out.append(('err', b[4:], 2))
@@ -457,6 +470,11 @@ def run_(prop, cfg, seed, n=150, named=None):
                 bad = ('rejected with: ' + msg, 'compiles without error')
             elif not own:
                 bad = ('rejected with: ' + msg, errs[:3])
+            elif other and getattr(it, 'expect_visited', False) and \
+                    not (bharness.compatible(undecorated(it)) and bharness.compatible_cfg(it, cfg)):
+                # the first visit's impls are generated as well: an ill-posed item (e.g. PartialOrd without PartialEq)
+                # has its own rustc errors, which are the user's
+                rep['ill_posed'] = rep.get('ill_posed', 0) + 1
             elif other:
                 bad = ('only the macro\'s own error (%s); the item stays defined and helper attributes are removed' % msg, other[:3])
         if bad:
